@@ -99,7 +99,7 @@ def B2_for(*mods):
 
 
 prop("C01",
-     lambda tier: [GI_for("C01"), WSI_for("C01"), LDI_for("C01"), STALE_for("C01"), tls.rule_A5, B1_for("decryptor", "session"), tables.rule_T4, tables.rule_T3_classes, tables.rule_T3_iv, tls.rule_types, tls.rule_A4, tls.rule_PAD,
+     lambda tier: [tables.rule_T1, GI_for("C01"), WSI_for("C01"), LDI_for("C01"), STALE_for("C01"), tls.rule_A5, B1_for("decryptor", "session"), tables.rule_T4, tables.rule_T3_classes, tables.rule_T3_iv, tls.rule_types, tls.rule_A4, tls.rule_PAD,
                    tls.rule_T10, tls.rule_D1, output.rule_A8, tcp.rule_tls_causality, output.rule_T7_split, output.rule_A7, B2_for("output_builder", "session"),
                    tcp.rule_framing, tcp.rule_A9, tcp.rule_full_scans, tcp.rule_A6a, output.rule_packet_fields, kdf.rule_T5_tls, kdf.rule_B4, state.rule_D6_ownership],
      "Decides the necessary structure of per-record state and dispatch: sequence number read/increment pairing, CBC residue chaining from ciphertext, RC4 contexts "
@@ -127,7 +127,7 @@ prop("C02",
      ["cryptography's AEAD implementations; struct.unpack_from semantics"], controls=["c02-merge-without-ts"])
 
 prop("C03",
-     lambda tier: [GI_for("C03"), WSI_for("C03"), LDI_for("C03"), STALE_for("C03"), escape.rule_A1, escape.rule_A1_records, escape.rule_A1_quic_packets, progress.rule_A2, tls.rule_A4, tls.rule_D1, state.rule_D6_ownership,
+     lambda tier: [pcapng.rule_T9_pcapng, GI_for("C03"), WSI_for("C03"), LDI_for("C03"), STALE_for("C03"), escape.rule_A1, escape.rule_A1_records, escape.rule_A1_quic_packets, progress.rule_A2, tls.rule_A4, tls.rule_D1, state.rule_D6_ownership,
                    tcp.rule_framing, B2_for("session"), state.rule_attr_kinds, mirror.rule_B3_match, quic.rule_D7b],
      "Decides 'never makes the run fail' as an interprocedural may-raise analysis: every site of classes S1–S6 (raise, index/key lookup, non-total external call, "
      "possibly-unbound local, attribute not set by every constructor path, data-dependent division) reachable from an iteration of run()'s capture loop or "
@@ -147,7 +147,7 @@ prop("C04",
      ["none beyond the trusted base"], controls=["c04-drop-port-conjunct"])
 
 prop("C05",
-     lambda tier: [checksum.rule_fold_bound, GI_for("C05"), WSI_for("C05"), LDI_for("C05"), STALE_for("C05"), tcp.rule_A9, tcp.rule_A6a, tcp.rule_framing, tcp.rule_tls_causality, B2_for("session"), B1_for("session"),
+     lambda tier: [checksum.rule_udp_zero, checksum.rule_pseudo_header, output.rule_packet_fields, checksum.rule_fold_bound, GI_for("C05"), WSI_for("C05"), LDI_for("C05"), STALE_for("C05"), tcp.rule_A9, tcp.rule_A6a, tcp.rule_framing, tcp.rule_tls_causality, B2_for("session"), B1_for("session"),
                    tcp.rule_D9_seq, tcp.rule_expected_seq, state.rule_D6_ownership],
      "Decides the structural necessary conditions of segmentation-independence: per-direction duplicate suppression pairing (A9), empty segments "
      "never reach the dedupe (A6a), framing loops make progress and release records only when whole (loop-replay lemma), record slice and buffer "
@@ -173,7 +173,7 @@ prop("C07",
      ["dpkt timestamp conversion"], controls=["c07-handshake-time-last"])
 
 prop("C08",
-     lambda tier: [GI_for("C08"), WSI_for("C08"), LDI_for("C08"), STALE_for("C08"), tcp.rule_tls_causality, output.rule_A8, tcp.rule_framing, escape.rule_A1_records, quic.rule_D8, output.rule_A7, output.rule_T7_split,
+     lambda tier: [keylog.rule_E2_pipeline, GI_for("C08"), WSI_for("C08"), LDI_for("C08"), STALE_for("C08"), tcp.rule_tls_causality, output.rule_A8, tcp.rule_framing, escape.rule_A1_records, quic.rule_D8, output.rule_A7, output.rule_T7_split,
                    B2_for("output_builder", "session"), escape.rule_A1, tcp.rule_full_scans, state.rule_D6_ownership, tcp.rule_A9],
      "Decided as the classical argument for online algorithms — every stage is causal, append-only and a left fold, hence the export of a prefix is a prefix of the "
      "export — each premise being a structural obligation: single in-order pass without look-ahead (CAUS), append-only channels consumed in order (A8), records released "
@@ -219,7 +219,7 @@ prop("C13",
      controls=["c13-stream-under-meta"])
 
 prop("C14",
-     lambda tier: [GI_for("C14"), WSI_for("C14"), LDI_for("C14"), state.rule_D6_ownership, tables.rule_T1, tables.rule_T2, tables.rule_T3_classes],
+     lambda tier: [GI_for("C14"), WSI_for("C14"), LDI_for("C14"), tables.rule_T1, tables.rule_T2, tables.rule_T3_classes],
      "Static decision of the suite table: (T1) each of the code-point rows of the dict literal equals the IANA row of an independent "
      "registry copy; (T2) the 12-line resolver loop is read structurally (first-match in sub-table order, defaults, AES→GCM/CCM fix-up, "
      "MAC default) and every table name is resolved under exactly those semantics from the ordered literal sub-tables and compared "
@@ -241,7 +241,7 @@ prop("C15",
      ["cryptography's HKDF / HMAC / hash implementations"], controls=["c15-swap-randoms"])
 
 prop("C16",
-     lambda tier: [quic.rule_T9_aad, GI_for("C16"), WSI_for("C16"), LDI_for("C16"), STALE_for("C16"), pkn.rule_E1, pkn.rule_D9_pkn, pkn.rule_pn_spaces, B1_for("quic.quic_session"), quic.rule_T9_hp],
+     lambda tier: [quic.rule_D7b, quic.rule_T9_aad, GI_for("C16"), WSI_for("C16"), LDI_for("C16"), STALE_for("C16"), pkn.rule_E1, pkn.rule_D9_pkn, pkn.rule_pn_spaces, B1_for("quic.quic_session"), quic.rule_T9_hp],
      "Decides that get_full_packet_number *is* RFC 9000 A.3: the function is reduced by forward substitution to a decision tree over (largest, truncated, "
      "encoded length) and compared, in a linear/bitwise normal form, with the appendix (E1); integer-exact arithmetic (D9); per-direction tables, "
      "0-RTT/1-RTT share a space (PNS); direction arms mirror (B1). Does not decide histories (largest is updated before authentication).",
